@@ -8,6 +8,7 @@ pub mod misc;
 pub mod panics;
 pub mod refcbor;
 pub mod report;
+pub mod sched;
 
 pub use panics::catch;
 pub use report::{Ctx, Level};
